@@ -236,6 +236,9 @@ const G_INT_A: u32 = 0b0001_1100; // session expiry, receive maximum, maximum pa
 const G_INT_B: u32 = 0b1110_0000; // topic alias maximum, request response information, request problem information
 const G_STR: u32 = (1 << 8) | (1 << 9) | (1 << 13) | (1 << 14); // authentication method, authentication data, user name, password
 const G_MISC: u32 = 0b11 | (1 << 12); // client identifier, keep alive, clean start
+const G_UP: u32 = (1 << 13) | (1 << 14); // user name, password
+const G_AUTH: u32 = (1 << 8) | (1 << 9); // authentication method, authentication data
+const G_CID: u32 = 0b11 | (1 << 12) | (1 << 13); // client identifier, keep alive, clean start, user name
 const G_WILL_A: u32 = 0b111 << 15; // will delay, will payload format indicator, will message expiry
 const G_WILL_B: u32 = 0b111 << 18; // will content type, will response topic, will correlation data
 
@@ -247,12 +250,15 @@ const G_WILL_B: u32 = 0b111 << 18; // will content type, will response topic, wi
 //@ h name=enc_connect_str_all props=C01 tier=off cap=mid to=1800
 //@ h name=enc_connect_misc_none props=C01 tier=off cap=mid to=1200
 //@ h name=enc_connect_misc_all props=C01 tier=off cap=mid to=1800
+//@ h name=enc_connect_up_none props=C01 tier=quick cap=mid to=1200
+//@ h name=enc_connect_auth_none props=C01 tier=off cap=mid to=1200
+//@ h name=enc_connect_cid_none props=C01 tier=quick cap=mid to=1200
 //@ h name=enc_connect_willa_none props=C01 tier=quick cap=mid to=1200
 //@ h name=enc_connect_willa_all props=C01 tier=off cap=mid to=1800
 //@ h name=enc_connect_willb_none props=C01 tier=quick cap=mid to=1200
 //@ h name=enc_connect_willb_all props=C01 tier=off cap=mid to=1800
 //@ claim: ConnectOpts -> ConnectTx::encode: packet_len() equals the bytes written; the reference decoder accepts the bytes as exactly one well-formed CONNECT and returns exactly the supplied values (flags at the standard's bits, property and remaining length fields equal to what follows); authentication data without a method is refused by build() before anything is encoded
-//@ bounds: per harness a group of 3-4 optional fields has symbolic presence (all subsets decided by the solver), the other optional fields are all absent (_none) or all present (_all); integers/booleans/QoS full range; strings/binaries concrete content of length 2-3 (_all) or 0 (_none); user properties and will user properties: 0 (_none) or 2 (_all) each; will absent or topic+payload present (will QoS/retain without a will and a will with only topic or only payload are outside MQTT 5's domain)
+//@ bounds: per harness a group of 2-4 optional fields has symbolic presence (all subsets decided by the solver), the other optional fields are all absent (_none) or all present (_all); integers/booleans/QoS full range; strings/binaries concrete content of length 2-3 (_all) or 0 (_none); user properties and will user properties: 0 (_none) or 2 (_all) each; will absent or topic+payload present (will QoS/retain without a will and a will with only topic or only payload are outside MQTT 5's domain)
 //@ funcs: ConnectOpts::*, ConnectTxBuilder::build/validate, ConnectTx::encode, ConnectTx::packet_len, ConnectTx::remaining_len, ConnectTx::property_len, ConnectTx::will_property_len, ConnectTx::payload_len, ConnectTx::payload_flags, ConnectTx::will_flag, VarSizeInt::encode, property Encode impls
 enc_connect!(enc_connect_inta_none, false, G_INT_A, false, 0, 0);
 enc_connect!(enc_connect_inta_all, true, G_INT_A, true, 3, 2);
@@ -262,6 +268,9 @@ enc_connect!(enc_connect_str_none, false, G_STR, false, 0, 1);
 enc_connect!(enc_connect_str_all, true, G_STR, true, 3, 2);
 enc_connect!(enc_connect_misc_none, true, G_MISC, false, 0, 0);
 enc_connect!(enc_connect_misc_all, true, G_MISC, true, 3, 1);
+enc_connect!(enc_connect_up_none, false, G_UP, false, 2, 0);
+enc_connect!(enc_connect_auth_none, false, G_AUTH, false, 2, 0);
+enc_connect!(enc_connect_cid_none, true, G_CID, false, 1, 0);
 enc_connect!(enc_connect_willa_none, true, G_WILL_A, false, 0, 0);
 enc_connect!(enc_connect_willa_all, true, G_WILL_A, true, 3, 2);
 enc_connect!(enc_connect_willb_none, true, G_WILL_B, false, 1, 1);
